@@ -79,6 +79,8 @@ def is_num(v):
 
 def as_real(v):
     """z3 Real term for a python number or SV."""
+    if isinstance(v, Leaf):
+        v = v.value
     if isinstance(v, SV):
         if v.k == "real":
             return v.t
@@ -99,6 +101,8 @@ def as_real(v):
 
 
 def as_int(v):
+    if isinstance(v, Leaf):
+        v = v.value
     if isinstance(v, SV):
         if v.k == "int":
             return v.t
@@ -119,6 +123,8 @@ def as_int(v):
 
 
 def kind_of(v):
+    if isinstance(v, Leaf):
+        v = v.value
     if isinstance(v, SV):
         return v.k
     if isinstance(v, bool):
@@ -157,6 +163,21 @@ def truth(v):
     if isinstance(v, SymMap):
         raise Unsupported("truth of a symbolic map")
     return bool(v)
+
+
+class NativeModel:
+    """Objects of model helper classes: their methods run natively even with symbolic arguments and
+    symbolic values may be stored in their attributes."""
+
+
+class Leaf(NativeModel):
+    """aml Param/Var box: mutable .value; arithmetic on a Leaf uses its current value."""
+
+    def __init__(self, value):
+        self.value = value
+
+    def __repr__(self):
+        return "Leaf<%r>" % (self.value,)
 
 
 class SymObj:
@@ -248,7 +269,7 @@ def name_distinct_axioms():
 
 
 def is_symbolic(v, depth=3):
-    if isinstance(v, (SV, SymObj, SymMap, SymSeq)):
+    if isinstance(v, (SV, SymObj, SymMap, SymSeq, NativeModel)):
         return True
     if depth <= 0:
         return False
